@@ -27,7 +27,7 @@ ASSUMPTIONS = [
 ]
 PROBES = ["decodable_not_dispatched", "inject.truncated", "inject.empty", "inject.random", "inject.flip", "inject.fid_subst", "inject.seq_subst", "inject.unknown_id", "inject.repeated", "inject.stale_own_reply", "mode.renegotiate",
           "undecodable_ignored", "decodable_dispatched", "pending_seq_foreign_fid", "pending_seq_own_fid", "pending_call_timed_out_after_bad_frame",
-          "after_command_ok", "mode.idle", "mode.pending", "mode.wrap", "wrapped_onto_stale_sequence"]
+          "after_command_ok", "pending.version", "mode.idle", "mode.pending", "mode.wrap", "wrapped_onto_stale_sequence"]
 
 VERSIONS = list(range(4, 15))
 BASE = ["stackStatusHandler", "incomingMessageHandler", "messageSentHandler", "trustCenterJoinHandler", "childJoinHandler",
@@ -120,13 +120,14 @@ def run(scenario, params, tape, detail=False):
     hold = {"on": False, "reqs": []}
 
     def deliver(req, payload):
-        if hold["on"] and req.name == "getValue":
+        if hold["on"] and req.name == hold.get("cmd", "getValue"):
             hold["reqs"].append((req, payload))
             return
         req.nrsp += 1
         ncp.emit(payload, 0.0, "rsp", req.seq)
 
     ncp.deliver = deliver
+    ncp.version_deliver = deliver
     token = [0]
 
     def h_getEui64(req):
@@ -174,11 +175,17 @@ def run(scenario, params, tape, detail=False):
                 if got:
                     viol.append(("C08.cbvalid", "callback-for-bad-frame", f"v{V}: callback {got[0][1]}({got[0][2]}) invoked for {what} frame {data.hex()} which does not decode fully as a known frame (known as {name})"))
 
-        async def inject_pending(make, what, repeat=1):
-            """A getValue is pending (its reply withheld); the frame carries its sequence number (and may arrive more than once)."""
+        async def inject_pending(make, what, repeat=1, cmd="getValue"):
+            """A command is pending (its reply withheld): getValue, or the version query - frame ID 0x0000, the command in flight during every
+            bring-up; the frame carries its sequence number (and may arrive more than once)."""
             hold["on"] = True
+            hold["cmd"] = cmd
             hold["reqs"].clear()
-            call = loop.create_task(ez.getValue(valueId=t.EzspValueId.VALUE_FREE_BUFFERS))
+            if cmd == "version":
+                probe("pending.version")
+                call = loop.create_task(ez._command("version", desiredProtocolVersion=ez.ezsp_version))
+            else:
+                call = loop.create_task(ez.getValue(valueId=t.EzspValueId.VALUE_FREE_BUFFERS))
             await asyncio.sleep(0.1)
             if not hold["reqs"]:
                 viol.append(("C08.after", "request-lost", f"v{V}: getValue request did not reach the NCP"))
@@ -196,12 +203,12 @@ def run(scenario, params, tape, detail=False):
             await asyncio.sleep(0.2)
             name, ok, seq = decodes(V, data) if data else (None, False, None)
             # an invalidCommand response under the pending sequence is a legitimate (negative) reply to any command
-            own = name in ("getValue", "invalidCommand") and seq == req.seq
+            own = name in (cmd, "invalidCommand") and seq == req.seq
             if len(raised) > nr:
                 viol.append(("C08.noraise", "escaped", f"v{V}: EZSP.frame_received raised {raised[-1][2]} for {what} frame {data.hex()} (getValue pending under seq {req.seq})"))
             if call.done() and not own:
                 r = call.result() if not call.cancelled() and call.exception() is None else call.exception()
-                viol.append(("C08.nocross", "completed-by-foreign-frame", f"v{V}: pending getValue (seq {req.seq}) was completed ({r!r}) by {what} frame {data.hex()} (decoded as {name})"))
+                viol.append(("C08.nocross", "completed-by-foreign-frame", f"v{V}: pending {cmd} (seq {req.seq}) was completed ({r!r}) by {what} frame {data.hex()} (decoded as {name})"))
             if own:
                 probe("pending_seq_own_fid")
             elif seq == req.seq:
@@ -211,6 +218,7 @@ def run(scenario, params, tape, detail=False):
                 viol.append(("C08.cbvalid", "callback-for-bad-frame", f"v{V}: callback {got[0][1]} invoked for {what} frame {data.hex()} which does not decode fully (getValue pending)"))
             # now the genuine reply; the call may already have lost its slot to the bad frame (allowed) -> do not wait 10 s for it
             hold["on"] = False
+            hold["cmd"] = "getValue"
             if not call.done():
                 req.nrsp += 1
                 ncp.emit(genuine, 0.0, "rsp", req.seq)
@@ -225,7 +233,7 @@ def run(scenario, params, tape, detail=False):
                                      f"10.9 s after it was issued; every later command waits behind it"))
                         call.cancel()
                         await asyncio.sleep(0.01)
-                elif call.exception() is None:
+                elif call.exception() is None and cmd == "getValue":
                     r = call.result()
                     if bytes(r[1]) != genuine[-len(bytes(r[1])):] if len(bytes(r[1])) else False:
                         viol.append(("C08.nocross", "wrong-payload", f"v{V}: getValue returned {r!r} after bad frame {data.hex()}"))
@@ -397,6 +405,10 @@ def run(scenario, params, tape, detail=False):
                         injected.append(full[:L])
                         probe("inject.truncated")
                         await inject_pending(make, f"{name} truncated to {L}/{len(full)} bytes")
+                        if L == len(full) and name != "version":
+                            # ... and under the sequence of a pending version query (frame ID 0x0000)
+                            injected.append(full[:L] + b"ver")
+                            await inject_pending(make, f"{name} intact", cmd="version")
                         if L == len(full) or L == len(full) - 1:
                             # the same foreign frame once more under the pending sequence (a repeated callback, a duplicated foreign reply)
                             injected.append(full[:L] + b"x2")
